@@ -9,3 +9,7 @@ NOTES = ("Every check: ./check <id> <tier> rebuilds harness/ against /repo's wor
 add("C21", "exhaustive enumeration vs integer-only calendar reference",
     "Every serial 1..=2958465 is checked against an independent civil-from-days reference for from_excel_date, date_to_serial_number and format_number(yyyy-mm-dd); YEAR/MONTH/DAY/WEEKDAY/DATE/TEXT and typed ISO dates are checked through the model on all month boundaries, leap days and a stride sample (quick) or on every serial (thorough). The input space is finite and enumerated completely, so for the pure functions this is exhaustive.",
     "Trusted: the reference calendar arithmetic in harness/src/props/c21.rs (Hinnant's algorithm); locale en only for the model-level part.")
+
+add("C01", "stateful property-based testing: generated operation histories vs recorded snapshots (undo walk-back)",
+    "Generated histories of UserModel operations (all recording op kinds) are executed on the real engine; the observable snapshot (contents, typed values, formatted text, resolved styles, row/column sizes/hidden/styles run-length normalised, sheets, frozen panes, grid lines, defined names, named styles, links, conditional formats with resolved dxf, theme, workbook name/locale/timezone) is recorded after every operation that grew the undo stack, then every undo step is compared against the recorded snapshot and stack lengths. Exploration only; while known findings are listed the generator is restricted (profiles Edit/Structural, run-time guards) and the restrictions are counted in the evidence.",
+    "Trusted: snapshot reader (public getters + Model::workbook for enumeration), hook H2 (history lengths). Defined-name formulas compared case-insensitively; sizes to 10 significant digits; view state excluded.")
